@@ -22,6 +22,31 @@ Theorem C05_accept_sound : forall dcf rackf (g : ring N) keyspaces enabled conne
   P_lwt dcf rackf g keyspaces enabled connected pol rq p.
 Proof. exact (fun dcf rackf g ks en co => plan_matches_sound dcf rackf g ks en co (fun _ => 0%N)). Qed.
 
+(* an accepted plan names only token-owning nodes; and the acceptor refuses NOTHING that has the
+   property: it is exactly the conjunction of the seven predicates *)
+Theorem C05_accept_ring : forall dcf rackf (g : ring N) keyspaces enabled connected pol rq p,
+  plan_matches dcf rackf g keyspaces enabled connected pol rq p = true -> P_ring g p.
+Proof. exact (fun dcf rackf g ks en co => plan_matches_ring dcf rackf g ks en co (fun _ => 0%N)). Qed.
+
+Theorem C05_accept_complete : forall dcf rackf (g : ring N) keyspaces enabled connected pol rq p,
+  P_nodup p -> P_filter enabled p -> P_locality dcf pol rq p -> P_ring g p ->
+  P_complete dcf g enabled pol rq p ->
+  P_order dcf rackf g keyspaces enabled connected pol rq p ->
+  P_lwt dcf rackf g keyspaces enabled connected pol rq p ->
+  plan_matches dcf rackf g keyspaces enabled connected pol rq p = true.
+Proof. exact (fun dcf rackf g ks en co => plan_matches_complete dcf rackf g ks en co (fun _ => 0%N)). Qed.
+
+(* "the one deterministic ring order": without a location preference the LWT replica sequence
+   is the alive replicas in the order of their first position on the ring walk from the token *)
+Theorem C05_lwt_ring_order : forall dcf rackf (g : ring N) keyspaces enabled connected pol rq,
+  sorted_weak g ->
+  (forall k s, ks_lookup keyspaces k = Some s -> nts_keys_ok s) ->
+  forall t s, eff_pref pol rq = PAny -> token_strategy keyspaces pol rq = Some (t, s) ->
+  lwt_sequence dcf rackf g keyspaces enabled connected pol rq =
+  filter (fun n => alive enabled connected n && mem n (reps_iter dcf rackf g keyspaces t s CAny))
+         (uniq (ring_range g t)).
+Proof. exact lwt_sequence_ring_order. Qed.
+
 (* what an accepted pick() result means: a member of the first non-empty group; for LWT
    replicas the head of the deterministic sequence *)
 Theorem C05_pick_sound : forall dcf rackf (g : ring N) keyspaces enabled connected pol rq n,
@@ -169,6 +194,16 @@ Example C05_ex_accept :
   plan_matches ex_dcf ex_rackf ex_g ex_ks ex_enabled ex_connected ex_pol (ex_rq true) [1; 7; 5; 4; 2; 3]%N = false.
 Proof. repeat split; vm_compute; reflexivity. Qed.
 
+Example C05_ex_groups :
+  map (group_of ex_dcf ex_rackf ex_g ex_ks ex_enabled ex_connected ex_pol (ex_rq false)) [1; 2; 3; 4; 5; 6; 7; 9]%N
+    = [0; 3; 6; 2; 2; 8; 1; 8]%nat /\
+  (* a node that owns no token is refused even at the end of an otherwise good plan *)
+  plan_matches ex_dcf ex_rackf ex_g ex_ks ex_enabled ex_connected ex_pol (ex_rq false) [1; 7; 5; 4; 2; 3; 9]%N = false /\
+  (* pick(): None is refused while a live replica exists *)
+  pick_matches ex_dcf ex_rackf ex_g ex_ks ex_enabled ex_connected ex_pol (ex_rq false) None = false /\
+  pick_matches ex_dcf ex_rackf ex_g ex_ks ex_enabled ex_connected ex_pol (ex_rq false) (Some 2%N) = false.
+Proof. repeat split; vm_compute; reflexivity. Qed.
+
 Example C05_ex_model :
   let cho := fun (_ len : nat) => Nat.pred len in
   let shuf := fun (_ : nat) (l : list N) => rev l in
@@ -181,6 +216,9 @@ Proof. repeat split; vm_compute; reflexivity. Qed.
 
 Print Assumptions C05_accept_sound.
 Print Assumptions C05_pick_sound.
+Print Assumptions C05_accept_ring.
+Print Assumptions C05_accept_complete.
+Print Assumptions C05_lwt_ring_order.
 Print Assumptions C05_fallback_accepted.
 Print Assumptions C05_fallback_properties.
 Print Assumptions C05_nodup_targets.
